@@ -95,7 +95,7 @@ type DCase struct {
 	Signed bool              `json:"signed"`
 	Duty   int               `json:"duty"`
 	Prefix string            `json:"prefix"`
-	Oracle map[string][3]bool `json:"oracle"` // Go type -> {pointer is an ssz.Unmarshaler, ssz accepts, json accepts}
+	Oracle map[string][5]bool `json:"oracle"` // Go type -> {pointer is an ssz.Unmarshaler, ssz accepts, json accepts, ssz-decoded value usable, json-decoded value usable}
 	Expect string            `json:"expect"` // Go type or "" for error
 	Label  string            `json:"label"`
 }
@@ -866,23 +866,55 @@ var unsignedTypes = map[string]func() any{
 	"SyncContribution":               func() any { return new(core.SyncContribution) },
 }
 
-func typeOracle(types map[string]func() any, data []byte) map[string][3]bool {
-	res := make(map[string][3]bool, len(types))
+// usable: the accessors a validating decoder would exercise succeed on the value.
+func usable(v any) bool {
+	ok := false
+	safe(func() {
+		switch x := v.(type) {
+		case core.SignedData:
+			if _, isSig := v.(core.Signature); !isSig {
+				if _, err := x.MessageRoot(); err != nil {
+					return
+				}
+			}
+			_ = x.Signature()
+			if _, err := x.Clone(); err != nil {
+				return
+			}
+			ok = true
+		case core.UnsignedData:
+			if _, err := x.MarshalJSON(); err != nil {
+				return
+			}
+			if _, err := x.Clone(); err != nil {
+				return
+			}
+			ok = true
+		}
+	})
+	return ok
+}
+
+func typeOracle(types map[string]func() any, data []byte) map[string][5]bool {
+	res := make(map[string][5]bool, len(types))
 	for name, newf := range types {
-		var hasSSZ, sszOK, jsonOK bool
-		if u, ok := newf().(ssz.Unmarshaler); ok {
+		var hasSSZ, sszOK, jsonOK, sszUsable, jsonUsable bool
+		ptr := newf()
+		if u, ok := ptr.(ssz.Unmarshaler); ok {
 			hasSSZ = true
 			var err error
 			if p, _ := safe(func() { err = u.UnmarshalSSZ(data) }); !p && err == nil {
 				sszOK = true
+				sszUsable = usable(deref(ptr))
 			}
 		}
-		ptr := newf()
+		ptr = newf()
 		var err error
 		if p, _ := safe(func() { err = json.Unmarshal(data, ptr) }); !p && err == nil {
 			jsonOK = true
+			jsonUsable = usable(deref(ptr))
 		}
-		res[name] = [3]bool{hasSSZ, sszOK, jsonOK}
+		res[name] = [5]bool{hasSSZ, sszOK, jsonOK, sszUsable, jsonUsable}
 	}
 	return res
 }
@@ -1410,6 +1442,7 @@ func TestGen(t *testing.T) {
 		}
 	}
 	// random strings of exactly the fixed SSZ size of every type whose pointer is an ssz.Unmarshaler
+	fixedSizes := map[int]bool{}
 	for _, m := range []map[string]func() any{signedTypes, unsignedTypes} {
 		names := make([]string, 0, len(m))
 		for n := range m {
@@ -1426,6 +1459,7 @@ func TestGen(t *testing.T) {
 			if size <= 0 {
 				continue
 			}
+			fixedSizes[size] = true
 			for k := 0; k < 6; k++ {
 				b := make([]byte, size)
 				switch k {
@@ -1449,7 +1483,11 @@ func TestGen(t *testing.T) {
 		nArb = 3000
 	}
 	for i := 0; i < nArb; i++ {
-		b := make([]byte, r.Intn(300))
+		n := r.Intn(300)
+		for fixedSizes[n] { // strings of exactly a fixed SSZ size are a template of their own (above)
+			n++
+		}
+		b := make([]byte, n)
 		_, _ = r.Read(b)
 		switch i % 4 {
 		case 1:
